@@ -730,7 +730,9 @@ fn len_class(len: usize) -> &'static str {
 
 fn faulted(sc: &Scenario) -> bool {
     // a directory at the output path is a fault of the environment: the call cannot succeed
-    !sc.rules.is_empty() || sc.write_cap > 0 || sc.fsize_limit.is_some() || sc.pre_kind == "dir" || sc.missing_parent
+    // (a stale marker file next to the output: a writer that honours such markers may refuse
+    // visibly; what it may not do is return Ok without the right file)
+    !sc.rules.is_empty() || sc.write_cap > 0 || sc.fsize_limit.is_some() || sc.pre_kind == "dir" || sc.missing_parent || sc.stale_sibling.is_some()
 }
 
 /// Judge one executed scenario. `fired` = a rule fired or the kernel limit bit.
